@@ -46,7 +46,7 @@ def corpus():
 
 
 # kept for the record: changes that turned out NOT to violate the statement (no check may report them)
-EQUIVALENT = {"own/c16-done-early"}
+EQUIVALENT = {"own/c16-done-early", "c01-retry-break-drops-rest", "c03b-deferred-publish-bound-to-stale-client", "c03c-retry-handle-prepended"}   # the last three: neutralised by fix F19, see their meta.json
 
 
 def one(item):
